@@ -15,6 +15,8 @@ ENGINES = [
      "kind_free_text": "TLA+ model of the time-series storage and npz off-loading; configuration product enumerated by TLC and run on the real code"},
     {"name": "addressing", "path": "spec/Addressing.tla spec/Trace_Addressing.tla vh/addrdrv.py vh/netbuild.py", "serves_properties": ["C10"],
      "kind_free_text": "TLA+ model of slot allocation; address tables of real Systems validated by TLC"},
+    {"name": "build", "path": "spec/Build.tla spec/Trace_Build.tla spec/Scen_Build.tla vh/builddrv.py", "serves_properties": ["C19"],
+     "kind_free_text": "TLA+ model of device registration; add sequences enumerated by TLC, executed on real Systems, validated by TLC"},
     {"name": "connectivity", "path": "spec/Connectivity.tla spec/Trace_Connectivity.tla spec/Scen_Connectivity.tla vh/conndrv.py vh/netbuild.py",
      "serves_properties": ["C12"], "kind_free_text": "graph definitions in TLA+ evaluated by TLC on logged graphs of real Systems; ConnMan model-checked"},
     {"name": "lifecycle", "path": "spec/Lifecycle.tla spec/Trace_Lifecycle.tla spec/Scen_Lifecycle.tla vh/lifecycle.py vh/infeasible.py",
@@ -95,6 +97,18 @@ CHECKS = {
         note=TRUSTED + "An exception escaping andes.run for an unparsable file is read as 'reported' (non-zero process exit); "
                        "a later successful re-run of the same routine may reset the exit code (only a failed set-up must persist)."),
 }
+
+CHECKS["C19"] = dict(
+    engine="build", design_ref="DESIGN.md 4 (C19)",
+    technique="TLC model checking of Build (registry / automatic idx) + TLC-enumerated add sequences executed on real Systems + "
+              "TLC trace validation of registry, lookups, back-references, helper devices, dangling references",
+    text="The idx allocation design is model-checked (unique within group, explicit free idx kept, fresh automatic idx even when "
+         "users supply idx values that look automatic); every add sequence of length <= 3 over the two models of a group x referrer / "
+         "dangling / helper patterns is executed on a real System and TLC evaluates uniqueness, lookup exactness across the models "
+         "of the group, exact back-reference lists, helper devices created at most once and linked to the right target, and that a "
+         "dangling reference fails set-up.",
+    note=TRUSTED.replace("vh/tdsdrv.py: ranks of floats, booleans computed on floats", "vh/builddrv.py: typed-string idx values, device tables")
+         + "Groups exercised: StaticGen (PV/Slack), SynGen referrers, FreqMeasurement helpers; other groups share the same GroupBase code.")
 
 NOT_APPLICABLE = [
     {"property_id": "C07", "reason": "numeric accuracy / convergence order against closed-form and matrix-exponential references: no "
